@@ -235,8 +235,12 @@ func execWriter(args []string, lines [][]string) []string {
 }
 
 // execWriterFlame: the response writer a handler is GIVEN (c.ResponseWriter() of a real Flame), one request per line.
-//	NEW writerf <method>
-//	RQ <op> <op> …        op = wh:<code> | w:<len>:<fwd> | fl | bf:<id> | st | sz | wr
+//	NEW writerf <method> [rec]      rec: flamego.Recovery() is the first middleware of the instance
+//	RQ <op> <op> …        op = wh:<code> | w:<len>:<fwd> | fl | bf:<id> | st | sz | wr | pn:<fwd>
+// `pn:<fwd>`: the handler panics at this point (the operations behind it never happen).  Without Recovery the panic
+// leaves ServeHTTP (`panic` is the request's last observation); with Recovery the error page is the next thing that
+// happens to the SAME writer — a status line and a body (of which the client accepts <fwd> bytes) — whatever the
+// handler had done to it before: hooks it registered and that have not run yet run now, before that status line.
 // Every request starts from a writer on which nothing has happened: whatever an earlier request of the same
 // instance did to ITS writer (hooks registered and never fired, a status, a size) is not there.
 // out: the observation of every op (as in `writer` sessions) joined by ';', then the client's trace.
@@ -249,6 +253,9 @@ func execWriterFlame(args []string, lines [][]string) []string {
 	var spy *spyWriter
 	var res []string
 	f := flamego.NewWithLogger(io.Discard)
+	if len(args) > 1 && args[1] == "rec" {
+		f.Use(flamego.Recovery())
+	}
 	f.Any("/", func(c flamego.Context) {
 		w := c.ResponseWriter()
 		for _, op := range ops {
@@ -263,6 +270,10 @@ func execWriterFlame(args []string, lines [][]string) []string {
 				obs = n
 			case p[0] == "fl":
 				w.Flush()
+			case p[0] == "pn" && len(p) == 2:
+				spy.fail = false
+				spy.fwd = atoi(p[1])
+				panic("handler panics")
 			case p[0] == "bf" && len(p) == 2:
 				id := p[1]
 				w.Before(func(rw flamego.ResponseWriter) {
@@ -401,7 +412,13 @@ func genWriter(r *rand.Rand, tier string, emit Emit) {
 		return strings.Join(f, ":")
 	}
 	for i := 0; i < random/4; i++ {
-		emit("NEW writerf %s", []string{"GET", "HEAD", "POST"}[r.Intn(3)])
+		// two sessions in three have Recovery in front of the handler; a request in three of every session ends in a
+		// panic of the handler, at any point of its operations (nothing done yet, hooks registered, status sent, body sent)
+		recArg := ""
+		if i%3 != 0 {
+			recArg = " rec"
+		}
+		emit("NEW writerf %s%s", []string{"GET", "HEAD", "POST"}[r.Intn(3)], recArg)
 		for q := 2 + r.Intn(4); q > 0; q-- {
 			h := 0
 			var toks []string
@@ -419,6 +436,10 @@ func genWriter(r *rand.Rand, tier string, emit Emit) {
 					}
 					toks = append(toks, tok(op))
 				}
+			}
+			if r.Intn(3) == 0 {
+				cut := r.Intn(len(toks) + 1)
+				toks = append(toks[:cut:cut], fmt.Sprintf("pn:%d", r.Intn(10)))
 			}
 			emit("RQ %s", strings.Join(toks, " "))
 		}
